@@ -1,28 +1,885 @@
-//! C10 — (stub; to be implemented, see DESIGN.md section 5 and HARNESS.md)
+//! C10 — derived operators act field-wise with operand order preserved.
+//!
+//! Every case is one struct or enum deriving one of the 24 operator derives. Its fields have the types
+//! `F0..F3` of the prelude: a *free term algebra* in which every operator builds a new term
+//! (`add(L0,R0)`, `not(L1)`, `mul(L2,K7)` ...), `*Assign` is `*self = self.clone() op rhs`, and
+//! `Sum`/`Product` fold with `+`/`*` from the leaf `Zero`/`One`. Operand leaves are tagged with side and
+//! field index, so any swap of operands, fields or operators changes the resulting term and one symbolic
+//! evaluation decides the statement for all operand values. The oracle (inside the generated program)
+//! builds the expected value by hand from term constructors — no derived code involved — and compares
+//! the `Debug` renderings (std `#[derive(Debug)]` on the case type, hand-written on `Term`).
 use super::progprop::*;
+use super::proggen::CaseResult;
+use serde_json::json;
 
-fn build(_d: &mut Dice) -> GenCase {
-    let mut c = GenCase::new("pub fn run(o: &mut Out) { o.check(\"stub\", true); }".to_string());
-    c.nontrivial = false;
+pub const SIG_FORWARD_ENUM: &str = "c10-mul-forward-enum";
+
+#[derive(Clone, Copy, Debug, PartialEq, Eq)]
+pub enum Fam {
+    AddLike,
+    AddAssignLike,
+    MulLike,
+    MulAssignLike,
+    NotLike,
+    SumLike,
+}
+
+pub struct OpD {
+    pub derive: &'static str,
+    pub fam: Fam,
+    /// the std method name = the name recorded in the term (`add`, `bitand`, ...), from the std docs
+    pub name: &'static str,
+    /// operator token
+    pub sym: &'static str,
+    /// helper attribute of the Mul-like derives
+    pub attr: &'static str,
+}
+
+const fn o(derive: &'static str, fam: Fam, name: &'static str, sym: &'static str, attr: &'static str) -> OpD {
+    OpD { derive, fam, name, sym, attr }
+}
+
+pub const OPS: [OpD; 24] = [
+    o("Add", Fam::AddLike, "add", "+", ""),
+    o("Sub", Fam::AddLike, "sub", "-", ""),
+    o("BitAnd", Fam::AddLike, "bitand", "&", ""),
+    o("BitOr", Fam::AddLike, "bitor", "|", ""),
+    o("BitXor", Fam::AddLike, "bitxor", "^", ""),
+    o("AddAssign", Fam::AddAssignLike, "add", "+=", ""),
+    o("SubAssign", Fam::AddAssignLike, "sub", "-=", ""),
+    o("BitAndAssign", Fam::AddAssignLike, "bitand", "&=", ""),
+    o("BitOrAssign", Fam::AddAssignLike, "bitor", "|=", ""),
+    o("BitXorAssign", Fam::AddAssignLike, "bitxor", "^=", ""),
+    o("Mul", Fam::MulLike, "mul", "*", "mul"),
+    o("Div", Fam::MulLike, "div", "/", "div"),
+    o("Rem", Fam::MulLike, "rem", "%", "rem"),
+    o("Shr", Fam::MulLike, "shr", ">>", "shr"),
+    o("Shl", Fam::MulLike, "shl", "<<", "shl"),
+    o("MulAssign", Fam::MulAssignLike, "mul", "*=", "mul_assign"),
+    o("DivAssign", Fam::MulAssignLike, "div", "/=", "div_assign"),
+    o("RemAssign", Fam::MulAssignLike, "rem", "%=", "rem_assign"),
+    o("ShrAssign", Fam::MulAssignLike, "shr", ">>=", "shr_assign"),
+    o("ShlAssign", Fam::MulAssignLike, "shl", "<<=", "shl_assign"),
+    o("Not", Fam::NotLike, "not", "!", ""),
+    o("Neg", Fam::NotLike, "neg", "-", ""),
+    o("Sum", Fam::SumLike, "add", "+", ""),
+    o("Product", Fam::SumLike, "mul", "*", ""),
+];
+
+pub const PRELUDE: &str = r#"
+#[derive(Clone, PartialEq, Eq)]
+pub enum Term {
+    Leaf(&'static str, u8),
+    K(u8),
+    NK(u8),
+    Zero,
+    One,
+    Op(&'static str, Box<Term>, Box<Term>),
+    Un(&'static str, Box<Term>),
+}
+impl std::fmt::Debug for Term {
+    fn fmt(&self, f: &mut std::fmt::Formatter<'_>) -> std::fmt::Result {
+        match self {
+            Term::Leaf(s, i) => write!(f, "{}{}", s, i),
+            Term::K(v) => write!(f, "K{}", v),
+            Term::NK(v) => write!(f, "NK{}", v),
+            Term::Zero => write!(f, "Zero"),
+            Term::One => write!(f, "One"),
+            Term::Op(n, a, b) => write!(f, "{}({:?},{:?})", n, a, b),
+            Term::Un(n, a) => write!(f, "{}({:?})", n, a),
+        }
+    }
+}
+pub fn lf(s: &'static str, i: u8) -> Term { Term::Leaf(s, i) }
+pub fn op(n: &'static str, a: Term, b: Term) -> Term { Term::Op(n, Box::new(a), Box::new(b)) }
+pub fn un(n: &'static str, a: Term) -> Term { Term::Un(n, Box::new(a)) }
+pub fn sk(v: u8) -> Term { Term::K(v) }
+pub fn snk(v: u8) -> Term { Term::NK(v) }
+pub fn zero() -> Term { Term::Zero }
+pub fn one() -> Term { Term::One }
+/// scalar right-hand sides: `K` is `Copy`, `NK` is neither `Copy` nor `Clone`
+#[derive(Clone, Copy, Debug)]
+pub struct K(pub u8);
+#[derive(Debug)]
+pub struct NK(pub u8);
+
+macro_rules! __bin {
+    ($F:ident $Tr:ident $m:ident $TrA:ident $ma:ident) => {
+        impl std::ops::$Tr for $F { type Output = $F; fn $m(self, r: $F) -> $F { $F(op(stringify!($m), self.0, r.0)) } }
+        impl std::ops::$Tr<K> for $F { type Output = $F; fn $m(self, r: K) -> $F { $F(op(stringify!($m), self.0, sk(r.0))) } }
+        impl std::ops::$Tr<NK> for $F { type Output = $F; fn $m(self, r: NK) -> $F { $F(op(stringify!($m), self.0, snk(r.0))) } }
+        impl std::ops::$TrA for $F { fn $ma(&mut self, r: $F) { *self = std::ops::$Tr::$m(self.clone(), r); } }
+        impl std::ops::$TrA<K> for $F { fn $ma(&mut self, r: K) { *self = std::ops::$Tr::$m(self.clone(), r); } }
+        impl std::ops::$TrA<NK> for $F { fn $ma(&mut self, r: NK) { *self = std::ops::$Tr::$m(self.clone(), r); } }
+    };
+}
+macro_rules! __field_ty {
+    ($F:ident) => {
+        #[derive(Clone, Debug, PartialEq, Eq)]
+        pub struct $F(pub Term);
+        __bin!($F Add add AddAssign add_assign);
+        __bin!($F Sub sub SubAssign sub_assign);
+        __bin!($F BitAnd bitand BitAndAssign bitand_assign);
+        __bin!($F BitOr bitor BitOrAssign bitor_assign);
+        __bin!($F BitXor bitxor BitXorAssign bitxor_assign);
+        __bin!($F Mul mul MulAssign mul_assign);
+        __bin!($F Div div DivAssign div_assign);
+        __bin!($F Rem rem RemAssign rem_assign);
+        __bin!($F Shr shr ShrAssign shr_assign);
+        __bin!($F Shl shl ShlAssign shl_assign);
+        impl std::ops::Not for $F { type Output = $F; fn not(self) -> $F { $F(un("not", self.0)) } }
+        impl std::ops::Neg for $F { type Output = $F; fn neg(self) -> $F { $F(un("neg", self.0)) } }
+        impl std::iter::Sum for $F { fn sum<I: Iterator<Item = $F>>(it: I) -> $F { it.fold($F(zero()), |a, b| a + b) } }
+        impl std::iter::Product for $F { fn product<I: Iterator<Item = $F>>(it: I) -> $F { it.fold($F(one()), |a, b| a * b) } }
+    };
+}
+__field_ty!(F0);
+__field_ty!(F1);
+__field_ty!(F2);
+__field_ty!(F3);
+
+pub fn show<T: std::fmt::Debug>(v: &T) -> String { format!("{:?}", v) }
+/// rendering of the result of a derived binary operator on an enum: kind of error + both messages
+pub fn d_bin<T: std::fmt::Debug>(r: Result<T, derive_more::BinaryError>) -> String {
+    match r {
+        Ok(v) => format!("Ok({:?})", v),
+        Err(e) => {
+            let outer = e.to_string();
+            match e {
+                derive_more::BinaryError::Mismatch(w) => format!("Err(Mismatch \"{}\" / \"{}\")", w, outer),
+                derive_more::BinaryError::Unit(u) => format!("Err(Unit \"{}\" / \"{}\")", u, outer),
+            }
+        }
+    }
+}
+pub fn d_un<T: std::fmt::Debug>(r: Result<T, derive_more::UnitError>) -> String {
+    match r {
+        Ok(v) => format!("Ok({:?})", v),
+        Err(e) => format!("Err(Unit \"{}\")", e),
+    }
+}
+"#;
+
+// ------------------------------------------------------------------------------------------------
+// shapes
+
+#[derive(Clone, Debug)]
+pub struct Fld {
+    /// field name (`None` for positional fields)
+    pub name: Option<String>,
+    /// the field's concrete type is `F<slot>`
+    pub slot: usize,
+}
+
+#[derive(Clone, Copy, Debug, PartialEq, Eq)]
+pub enum VK {
+    Tuple,
+    Named,
+    Unit,
+}
+
+#[derive(Clone, Debug)]
+pub struct Var {
+    pub name: &'static str,
+    pub kind: VK,
+    pub fields: Vec<Fld>,
+}
+
+#[derive(Clone, Debug)]
+pub struct Shape {
+    pub is_enum: bool,
+    /// struct: one pseudo-variant (kind Tuple/Named); enum: the variants
+    pub vars: Vec<Var>,
+    /// slot is declared as the type parameter `T<slot>` (else the concrete type `F<slot>` is written)
+    pub param: [bool; 4],
+    /// 0 none, 1 inline `: Clone` bound on the first parameter, 2 where-clause on the last parameter
+    pub bound_style: u8,
+}
+
+impl Shape {
+    fn used_slots(&self) -> Vec<usize> {
+        let mut v: Vec<usize> = self.vars.iter().flat_map(|x| x.fields.iter().map(|f| f.slot)).collect();
+        v.sort();
+        v.dedup();
+        v
+    }
+    fn params(&self) -> Vec<usize> {
+        self.used_slots().into_iter().filter(|s| self.param[*s]).collect()
+    }
+    fn ty(&self, slot: usize) -> String {
+        if self.param[slot] {
+            format!("T{slot}")
+        } else {
+            format!("F{slot}")
+        }
+    }
+    fn tname(&self) -> &'static str {
+        if self.is_enum {
+            "E"
+        } else {
+            "S"
+        }
+    }
+    fn generics_decl(&self) -> (String, String) {
+        let ps = self.params();
+        if ps.is_empty() {
+            return (String::new(), String::new());
+        }
+        let mut parts = vec![];
+        for (k, s) in ps.iter().enumerate() {
+            if k == 0 && self.bound_style == 1 {
+                parts.push(format!("T{s}: Clone"));
+            } else {
+                parts.push(format!("T{s}"));
+            }
+        }
+        let wh = if self.bound_style == 2 { format!(" where T{}: Clone", ps[ps.len() - 1]) } else { String::new() };
+        (format!("<{}>", parts.join(", ")), wh)
+    }
+    /// the instantiated type
+    fn inst(&self) -> String {
+        let ps = self.params();
+        if ps.is_empty() {
+            self.tname().to_string()
+        } else {
+            format!("{}<{}>", self.tname(), ps.iter().map(|s| format!("F{s}")).collect::<Vec<_>>().join(", "))
+        }
+    }
+    fn decl_fields(&self, v: &Var) -> String {
+        match v.kind {
+            VK::Unit => String::new(),
+            VK::Tuple => format!("({})", v.fields.iter().map(|f| self.ty(f.slot)).collect::<Vec<_>>().join(", ")),
+            VK::Named => format!(
+                " {{ {} }}",
+                v.fields.iter().map(|f| format!("{}: {}", f.name.as_ref().unwrap(), self.ty(f.slot))).collect::<Vec<_>>().join(", ")
+            ),
+        }
+    }
+    /// the type definition; `dm` = the derive_more derive line(s) + helper attributes (empty for the control)
+    fn typedef(&self, dm: &str) -> String {
+        let (g, wh) = self.generics_decl();
+        if self.is_enum {
+            let vs: Vec<String> = self.vars.iter().map(|v| format!("    {}{},", v.name, self.decl_fields(v))).collect();
+            format!("#[derive(Clone, Debug)]\n{dm}pub enum E{g}{wh} {{\n{}\n}}\npub type Ty = {};\n", vs.join("\n"), self.inst())
+        } else {
+            let v = &self.vars[0];
+            let body = match v.kind {
+                VK::Tuple => format!("{}{wh};", self.decl_fields(v)),
+                _ => format!("{wh}{}", self.decl_fields(v)),
+            };
+            format!("#[derive(Clone, Debug)]\n{dm}pub struct S{g}{body}\npub type Ty = {};\n", self.inst())
+        }
+    }
+    fn path(&self, v: &Var) -> String {
+        if self.is_enum {
+            format!("E::{}", v.name)
+        } else {
+            "S".to_string()
+        }
+    }
+    /// value expression of variant `v` whose field `i` wraps the term expression `term(i)`
+    fn value(&self, v: &Var, term: &dyn Fn(usize) -> String) -> String {
+        let p = self.path(v);
+        match v.kind {
+            VK::Unit => p,
+            VK::Tuple => format!("{p}({})", v.fields.iter().enumerate().map(|(i, f)| format!("F{}({})", f.slot, term(i))).collect::<Vec<_>>().join(", ")),
+            VK::Named => format!(
+                "{p} {{ {} }}",
+                v.fields.iter().enumerate().map(|(i, f)| format!("{}: F{}({})", f.name.as_ref().unwrap(), f.slot, term(i))).collect::<Vec<_>>().join(", ")
+            ),
+        }
+    }
+    fn max_fields(&self) -> usize {
+        self.vars.iter().map(|v| v.fields.len()).max().unwrap_or(0)
+    }
+    fn same_type_fields(&self) -> bool {
+        self.vars.iter().any(|v| {
+            let mut s: Vec<usize> = v.fields.iter().map(|f| f.slot).collect();
+            s.sort();
+            s.windows(2).any(|w| w[0] == w[1])
+        })
+    }
+}
+
+fn leaf(side: &str, i: usize) -> String {
+    format!("lf(\"{side}\",{i})")
+}
+fn t_op(name: &str, a: &str, b: &str) -> String {
+    format!("op(\"{name}\",{a},{b})")
+}
+fn t_un(name: &str, a: &str) -> String {
+    format!("un(\"{name}\",{a})")
+}
+
+const VNAMES: [&str; 4] = ["A", "B", "C", "D"];
+
+fn gen_fields(d: &mut Dice, kind: VK, slot_mode: usize, pool: &[&str; 4], raw: bool) -> Vec<Fld> {
+    if kind == VK::Unit {
+        return vec![];
+    }
+    let nf = 1 + d.weighted(&[3, 4, 2, 2]);
+    (0..nf)
+        .map(|i| {
+            let slot = match slot_mode {
+                0 => i,
+                1 => 0,
+                _ => d.pick(4),
+            };
+            let name = if kind == VK::Named { Some(if raw && i == 0 { "r#fn".to_string() } else { pool[i].to_string() }) } else { None };
+            Fld { name, slot }
+        })
+        .collect()
+}
+
+fn gen_shape(d: &mut Dice, is_enum: bool) -> Shape {
+    let slot_mode = d.weighted(&[6, 2, 2]);
+    let pool: &[&str; 4] = if d.chance(30) { &["x", "rhs", "y", "z"] } else { &["a", "b", "c", "d"] };
+    let raw = d.chance(6);
+    let vars = if is_enum {
+        let nv = 1 + d.weighted(&[2, 4, 3, 3]);
+        (0..nv)
+            .map(|k| {
+                let kind = [VK::Tuple, VK::Named, VK::Unit][d.weighted(&[4, 3, 3])];
+                Var { name: VNAMES[k], kind, fields: gen_fields(d, kind, slot_mode, pool, raw) }
+            })
+            .collect()
+    } else {
+        let kind = if d.chance(50) { VK::Named } else { VK::Tuple };
+        vec![Var { name: "S", kind, fields: gen_fields(d, kind, slot_mode, pool, raw) }]
+    };
+    let mut param = [false; 4];
+    match d.weighted(&[5, 3, 2]) {
+        0 => {}
+        1 => param = [true; 4],
+        _ => {
+            for p in param.iter_mut() {
+                *p = d.chance(50);
+            }
+        }
+    }
+    let bound_style = d.weighted(&[6, 2, 2]) as u8;
+    Shape { is_enum, vars, param, bound_style }
+}
+
+// ------------------------------------------------------------------------------------------------
+// plans and rendering
+
+#[derive(Clone, Copy, Debug, PartialEq, Eq)]
+pub enum Mode {
+    /// Add-like, AddAssign-like, Not-like, Sum-like
+    Plain,
+    /// Mul-like / MulAssign-like with a scalar right-hand side
+    Scalar,
+    /// Mul-like / MulAssign-like with `#[<attr>(forward)]`
+    Forward,
+}
+
+#[derive(Clone, Debug)]
+pub struct Plan {
+    pub op: usize,
+    pub mode: Mode,
+    pub shape: Shape,
+    /// scalar payload
+    pub scalar: u8,
+    /// single-field scalar case uses the non-`Copy` scalar `NK`
+    pub noncopy: bool,
+    /// Sum-like: number of iterator items (the empty iterator is always checked as well)
+    pub sum_len: usize,
+    /// Sum-like: 0 = companion operator derived, 1 = hand-written field-wise, 2 = hand-written with its own op name
+    pub companion: u8,
+    /// 0 = separate derive attributes, 1 = one derive list
+    pub derive_style: u8,
+}
+
+struct Rendered {
+    dm: String,
+    extra_items: String,
+    run: String,
+    /// value constructions (for the derive-less control)
+    values: Vec<String>,
+    labels: Vec<String>,
+}
+
+fn render_plan(p: &Plan) -> GenCase {
+    let opd = &OPS[p.op];
+    let sh = &p.shape;
+    let name = opd.name;
+    let sym = opd.sym;
+    let mut labels: Vec<String> = vec![];
+    let mut values: Vec<String> = vec![];
+    let mut extra_items = String::new();
+    let mut run = String::new();
+    let forward = p.mode == Mode::Forward;
+    let mut derives = vec![format!("derive_more::{}", opd.derive)];
+    let mut attrs = String::new();
+    if forward {
+        attrs.push_str(&format!("#[{}(forward)]\n", opd.attr));
+    }
+    let binary_self = matches!(opd.fam, Fam::AddLike) || (opd.fam == Fam::MulLike && forward);
+    let assign_self = matches!(opd.fam, Fam::AddAssignLike) || (opd.fam == Fam::MulAssignLike && forward);
+    let what = format!("{}{}", opd.derive, if forward { "(forward)" } else { "" });
+
+    if sh.is_enum {
+        if binary_self {
+            // every ordered pair of variants
+            let mut kinds = std::collections::BTreeSet::new();
+            for (i, vl) in sh.vars.iter().enumerate() {
+                for (j, vr) in sh.vars.iter().enumerate() {
+                    let a = sh.value(vl, &|k| leaf("L", k));
+                    let b = sh.value(vr, &|k| leaf("R", k));
+                    values.push(a.clone());
+                    values.push(b.clone());
+                    let expected = if i != j {
+                        kinds.insert(if vl.kind == VK::Unit || vr.kind == VK::Unit { "pair=mismatch_with_unit" } else { "pair=mismatch" });
+                        kinds.insert("pair=mismatch_any");
+                        format!("String::from(\"Err(Mismatch \\\"Trying to {name}() mismatched enum variants\\\" / \\\"Trying to {name}() mismatched enum variants\\\")\")")
+                    } else if vl.kind == VK::Unit {
+                        kinds.insert("pair=unit");
+                        format!("String::from(\"Err(Unit \\\"Cannot {name}() unit variants\\\" / \\\"Cannot {name}() unit variants\\\")\")")
+                    } else {
+                        kinds.insert("pair=same");
+                        let e = sh.value(vl, &|k| t_op(name, &leaf("L", k), &leaf("R", k)));
+                        values.push(e.clone());
+                        format!("{{ let e: Ty = {e}; format!(\"Ok({{:?}})\", e) }}")
+                    };
+                    run.push_str(&format!(
+                        "    {{\n        let a: Ty = {a};\n        let b: Ty = {b};\n        let r: Result<Ty, derive_more::BinaryError> = a {sym} b;\n        let expected = {expected};\n        o.eq(\"{what}: {} {sym} {}\", &expected, &d_bin(r));\n    }}\n",
+                        vl.name, vr.name
+                    ));
+                }
+            }
+            labels.extend(kinds.into_iter().map(String::from));
+        } else {
+            // Not-like
+            debug_assert!(opd.fam == Fam::NotLike);
+            let has_unit = sh.vars.iter().any(|v| v.kind == VK::Unit);
+            for v in &sh.vars {
+                let a = sh.value(v, &|k| leaf("L", k));
+                values.push(a.clone());
+                if has_unit {
+                    let expected = if v.kind == VK::Unit {
+                        format!("String::from(\"Err(Unit \\\"Cannot {name}() unit variants\\\")\")")
+                    } else {
+                        let e = sh.value(v, &|k| t_un(name, &leaf("L", k)));
+                        values.push(e.clone());
+                        format!("{{ let e: Ty = {e}; format!(\"Ok({{:?}})\", e) }}")
+                    };
+                    run.push_str(&format!(
+                        "    {{\n        let a: Ty = {a};\n        let r: Result<Ty, derive_more::UnitError> = {sym}a;\n        let expected = {expected};\n        o.eq(\"{what}: {sym}{}\", &expected, &d_un(r));\n    }}\n",
+                        v.name
+                    ));
+                } else {
+                    let e = sh.value(v, &|k| t_un(name, &leaf("L", k)));
+                    values.push(e.clone());
+                    run.push_str(&format!(
+                        "    {{\n        let a: Ty = {a};\n        let r: Ty = {sym}a;\n        let e: Ty = {e};\n        o.eq(\"{what}: {sym}{}\", &show(&e), &show(&r));\n    }}\n",
+                        v.name
+                    ));
+                }
+            }
+            if has_unit {
+                labels.push("unary_result_wrapped".into());
+            }
+        }
+    } else {
+        let v = &sh.vars[0];
+        let a = sh.value(v, &|k| leaf("L", k));
+        let b = sh.value(v, &|k| leaf("R", k));
+        values.push(a.clone());
+        if binary_self {
+            let e = sh.value(v, &|k| t_op(name, &leaf("L", k), &leaf("R", k)));
+            values.push(b.clone());
+            values.push(e.clone());
+            run.push_str(&format!(
+                "    let a: Ty = {a};\n    let b: Ty = {b};\n    let r: Ty = a {sym} b;\n    let e: Ty = {e};\n    o.eq(\"{what}: field i of a {sym} b is a.i {sym} b.i\", &show(&e), &show(&r));\n"
+            ));
+        } else if assign_self {
+            let e = sh.value(v, &|k| t_op(name, &leaf("L", k), &leaf("R", k)));
+            values.push(b.clone());
+            values.push(e.clone());
+            run.push_str(&format!(
+                "    let mut a: Ty = {a};\n    let b: Ty = {b};\n    a {sym} b;\n    let e: Ty = {e};\n    o.eq(\"{what}: a {sym} b leaves a equal to the field-wise result\", &show(&e), &show(&a));\n"
+            ));
+        } else if opd.fam == Fam::MulLike || opd.fam == Fam::MulAssignLike {
+            let (sc, st) = if p.noncopy { (format!("NK({})", p.scalar), format!("snk({})", p.scalar)) } else { (format!("K({})", p.scalar), format!("sk({})", p.scalar)) };
+            let e = sh.value(v, &|k| t_op(name, &leaf("L", k), &st));
+            values.push(e.clone());
+            if opd.fam == Fam::MulLike {
+                run.push_str(&format!(
+                    "    let a: Ty = {a};\n    let r: Ty = a {sym} {sc};\n    let e: Ty = {e};\n    o.eq(\"{what}: field i of a {sym} k is a.i {sym} k\", &show(&e), &show(&r));\n"
+                ));
+            } else {
+                run.push_str(&format!(
+                    "    let mut a: Ty = {a};\n    a {sym} {sc};\n    let e: Ty = {e};\n    o.eq(\"{what}: a {sym} k leaves every field a.i {} k\", &show(&e), &show(&a));\n",
+                    sym.trim_end_matches('=')
+                ));
+            }
+            if !p.noncopy {
+                // the impl is generic over the scalar: a second scalar value of the same type must arrive unchanged too
+                let s2 = p.scalar.wrapping_add(100);
+                let e2 = sh.value(v, &|k| t_op(name, &leaf("R", k), &format!("sk({s2})")));
+                values.push(b.clone());
+                values.push(e2.clone());
+                if opd.fam == Fam::MulLike {
+                    run.push_str(&format!(
+                        "    let b: Ty = {b};\n    let r2: Ty = b {sym} K({s2});\n    let e2: Ty = {e2};\n    o.eq(\"{what}: second scalar value\", &show(&e2), &show(&r2));\n"
+                    ));
+                } else {
+                    run.push_str(&format!(
+                        "    let mut b: Ty = {b};\n    b {sym} K({s2});\n    let e2: Ty = {e2};\n    o.eq(\"{what}: second scalar value\", &show(&e2), &show(&b));\n"
+                    ));
+                }
+            } else {
+                labels.push("scalar_noncopy".into());
+            }
+        } else if opd.fam == Fam::NotLike {
+            let e = sh.value(v, &|k| t_un(name, &leaf("L", k)));
+            values.push(e.clone());
+            run.push_str(&format!(
+                "    let a: Ty = {a};\n    let r: Ty = {sym}a;\n    let e: Ty = {e};\n    o.eq(\"{what}: every field mapped\", &show(&e), &show(&r));\n"
+            ));
+        } else {
+            // Sum / Product
+            let is_sum = opd.derive == "Sum";
+            let (comp_trait, comp_method, ident, fold_method) = if is_sum { ("Add", "add", "zero()", "sum") } else { ("Mul", "mul", "one()", "product") };
+            let comp_name: String = match p.companion {
+                0 => {
+                    derives.push(format!("derive_more::{comp_trait}"));
+                    if !is_sum {
+                        attrs.push_str("#[mul(forward)]\n");
+                    }
+                    comp_method.to_string()
+                }
+                1 | 2 => {
+                    let nm = if p.companion == 1 { comp_method.to_string() } else { format!("c{comp_method}") };
+                    // hand-written companion on the instantiated type
+                    let acc = |side: &str, k: usize, f: &Fld| match &f.name {
+                        Some(n) => format!("{side}.{n}.0"),
+                        None => format!("{side}.{k}.0"),
+                    };
+                    let body = match v.kind {
+                        VK::Tuple => format!(
+                            "S({})",
+                            v.fields.iter().enumerate().map(|(k, f)| format!("F{}(op(\"{nm}\", {}, {}))", f.slot, acc("self", k, f), acc("rhs", k, f))).collect::<Vec<_>>().join(", ")
+                        ),
+                        _ => format!(
+                            "S {{ {} }}",
+                            v.fields
+                                .iter()
+                                .enumerate()
+                                .map(|(k, f)| format!("{}: F{}(op(\"{nm}\", {}, {}))", f.name.as_ref().unwrap(), f.slot, acc("self", k, f), acc("rhs", k, f)))
+                                .collect::<Vec<_>>()
+                                .join(", ")
+                        ),
+                    };
+                    extra_items.push_str(&format!(
+                        "impl std::ops::{comp_trait} for Ty {{\n    type Output = Ty;\n    fn {comp_method}(self, rhs: Ty) -> Ty {{ {body} }}\n}}\n"
+                    ));
+                    nm
+                }
+                _ => unreachable!(),
+            };
+            labels.push(format!("companion={}", ["derived", "manual_fieldwise", "manual_own_name"][p.companion as usize]));
+            labels.push(format!("sum_len={}", p.sum_len));
+            let sides = ["A", "B", "C"];
+            let items: Vec<String> = (0..p.sum_len).map(|j| sh.value(v, &|k| leaf(sides[j], k))).collect();
+            values.extend(items.iter().cloned());
+            let e0 = sh.value(v, &|_| ident.to_string());
+            values.push(e0.clone());
+            run.push_str(&format!(
+                "    let r0: Ty = Vec::<Ty>::new().into_iter().{fold_method}();\n    let e0: Ty = {e0};\n    o.eq(\"{what}: empty iterator gives the field-wise identity\", &show(&e0), &show(&r0));\n"
+            ));
+            if p.sum_len > 0 {
+                let e = sh.value(v, &|k| {
+                    let mut acc = ident.to_string();
+                    for s in sides.iter().take(p.sum_len) {
+                        acc = t_op(&comp_name, &acc, &leaf(s, k));
+                    }
+                    acc
+                });
+                values.push(e.clone());
+                run.push_str(&format!(
+                    "    let items: Vec<Ty> = vec![{}];\n    let r: Ty = items.into_iter().{fold_method}();\n    let e: Ty = {e};\n    o.eq(\"{what}: left fold with {comp_trait} from the identity\", &show(&e), &show(&r));\n",
+                    items.join(", ")
+                ));
+            }
+        }
+    }
+
+    let dm = if p.derive_style == 0 {
+        format!("{}{attrs}", derives.iter().map(|x| format!("#[derive({x})]\n")).collect::<String>())
+    } else {
+        format!("#[derive({})]\n{attrs}", derives.join(", "))
+    };
+    let r = Rendered { dm, extra_items, run, values, labels };
+    finish(p, r)
+}
+
+fn finish(p: &Plan, r: Rendered) -> GenCase {
+    let opd = &OPS[p.op];
+    let sh = &p.shape;
+    let body = format!("{}{}pub fn run(o: &mut Out) {{\n{}}}", sh.typedef(&r.dm), r.extra_items, r.run);
+    let ctl_vals: String = {
+        let mut seen = std::collections::BTreeSet::new();
+        r.values.iter().filter(|v| seen.insert((*v).clone())).map(|v| format!("    let _v: Ty = {v};\n")).collect()
+    };
+    let control = format!("{}pub fn __ctl() {{\n{}}}", sh.typedef(""), ctl_vals);
+    let mut labels = r.labels;
+    labels.push(format!("derive={}", opd.derive));
+    labels.push(format!("family={:?}", opd.fam));
+    labels.push(format!("kind={}", if sh.is_enum { "enum" } else { "struct" }));
+    if sh.is_enum {
+        labels.push(format!("variants={}", sh.vars.len()));
+        for (k, l) in [(VK::Tuple, "enum_has_tuple_variant"), (VK::Named, "enum_has_named_variant"), (VK::Unit, "enum_has_unit_variant")] {
+            if sh.vars.iter().any(|v| v.kind == k) {
+                labels.push(l.into());
+            }
+        }
+    } else {
+        labels.push(format!("shape={}", if sh.vars[0].kind == VK::Named { "named" } else { "tuple" }));
+    }
+    labels.push(format!("max_fields={}", sh.max_fields()));
+    let ps = sh.params();
+    let used = sh.used_slots();
+    labels.push(format!("generic={}", if ps.is_empty() { "none" } else if ps.len() == used.len() { "all" } else { "mixed" }));
+    if !ps.is_empty() {
+        labels.push("generic".into());
+        if sh.bound_style == 1 {
+            labels.push("inline_bound".into());
+        }
+        if sh.bound_style == 2 {
+            labels.push("where_clause".into());
+        }
+    }
+    if sh.same_type_fields() {
+        labels.push("same_type_fields".into());
+    }
+    if sh.vars.iter().any(|v| v.fields.iter().any(|f| f.name.as_deref() == Some("r#fn"))) {
+        labels.push("raw_ident_field".into());
+    }
+    match p.mode {
+        Mode::Forward => labels.push("forward".into()),
+        Mode::Scalar => labels.push("scalar".into()),
+        Mode::Plain => {}
+    }
+    let forward_enum = sh.is_enum && p.mode == Mode::Forward;
+    if forward_enum {
+        labels.push("mul_forward_enum".into());
+    }
+    let mut c = GenCase::new(body);
+    c.nontrivial = if sh.is_enum { sh.vars.len() >= 2 } else { sh.vars[0].fields.len() >= 2 };
+    c.labels = labels;
+    c.control = Some(control);
+    c.meta = json!({
+        "derive": opd.derive,
+        "family": format!("{:?}", opd.fam),
+        "mode": format!("{:?}", p.mode),
+        "kind": if sh.is_enum { "enum" } else { "struct" },
+        "forward_enum": forward_enum,
+    });
     c
 }
 
+/// Forms the documentation calls unsupported for enums (add_assign.md, mul.md, mul_assign.md, sum.md):
+/// they must be rejected at compile time.
+fn render_negative(op: usize, forward: bool, shape: &Shape) -> GenCase {
+    let opd = &OPS[op];
+    let attrs = if forward { format!("#[{}(forward)]\n", opd.attr) } else { String::new() };
+    let dm = format!("#[derive(derive_more::{})]\n{attrs}", opd.derive);
+    let body = shape.typedef(&dm);
+    let mut c = GenCase::new(body);
+    c.runnable = false;
+    c.expect_compile = false;
+    c.nontrivial = false;
+    c.labels = vec!["negative_unsupported_enum".into(), format!("neg_derive={}", opd.derive), format!("neg_family={:?}", opd.fam)];
+    c.control = Some(shape.typedef(""));
+    c.meta = json!({"derive": opd.derive, "negative": true, "forward_enum": false});
+    c
+}
+
+fn build(d: &mut Dice) -> GenCase {
+    let op = d.pick(24);
+    let opd = &OPS[op];
+    if d.chance(5) {
+        // negative: enum under a derive that documents enums as unsupported
+        let nops: Vec<usize> = (0..24).filter(|i| matches!(OPS[*i].fam, Fam::AddAssignLike | Fam::MulLike | Fam::MulAssignLike | Fam::SumLike)).collect();
+        let op = nops[d.pick(nops.len())];
+        let forward = OPS[op].fam == Fam::MulAssignLike && d.chance(40);
+        let shape = gen_shape(d, true);
+        return render_negative(op, forward, &shape);
+    }
+    let (mode, is_enum) = match opd.fam {
+        Fam::AddLike | Fam::NotLike => (Mode::Plain, d.chance(60)),
+        Fam::AddAssignLike | Fam::SumLike => (Mode::Plain, false),
+        Fam::MulLike => match d.weighted(&[11, 5, 4]) {
+            0 => (Mode::Scalar, false),
+            1 => (Mode::Forward, false),
+            _ => (Mode::Forward, true),
+        },
+        Fam::MulAssignLike => {
+            if d.chance(35) {
+                (Mode::Forward, false)
+            } else {
+                (Mode::Scalar, false)
+            }
+        }
+    };
+    let shape = gen_shape(d, is_enum);
+    let scalar = 1 + d.pick(9) as u8;
+    let noncopy = mode == Mode::Scalar && shape.vars[0].fields.len() == 1 && d.chance(50);
+    let sum_len = 1 + d.pick(3);
+    let companion = d.weighted(&[4, 3, 3]) as u8;
+    let derive_style = d.pick(2) as u8;
+    render_plan(&Plan { op, mode, shape, scalar, noncopy, sum_len, companion, derive_style })
+}
+
+fn fld(name: Option<&str>, slot: usize) -> Fld {
+    Fld { name: name.map(String::from), slot }
+}
+
+/// Deterministic base set: every derive (and mode) on a two-field tuple struct, a generic three-field named
+/// struct, and — where enums are supported — a concrete enum with two unit variants and a generic enum
+/// without unit variants.
+fn fixed() -> Vec<GenCase> {
+    let tuple2 = Shape { is_enum: false, vars: vec![Var { name: "S", kind: VK::Tuple, fields: vec![fld(None, 0), fld(None, 1)] }], param: [false; 4], bound_style: 0 };
+    let tuple2_same = Shape { is_enum: false, vars: vec![Var { name: "S", kind: VK::Tuple, fields: vec![fld(None, 0), fld(None, 0)] }], param: [false; 4], bound_style: 0 };
+    let named3g = Shape {
+        is_enum: false,
+        vars: vec![Var { name: "S", kind: VK::Named, fields: vec![fld(Some("a"), 0), fld(Some("b"), 1), fld(Some("c"), 0)] }],
+        param: [true; 4],
+        bound_style: 1,
+    };
+    let single = Shape { is_enum: false, vars: vec![Var { name: "S", kind: VK::Tuple, fields: vec![fld(None, 0)] }], param: [false; 4], bound_style: 0 };
+    let enum_units = Shape {
+        is_enum: true,
+        vars: vec![
+            Var { name: "A", kind: VK::Tuple, fields: vec![fld(None, 0)] },
+            Var { name: "B", kind: VK::Named, fields: vec![fld(Some("a"), 0), fld(Some("b"), 1)] },
+            Var { name: "C", kind: VK::Unit, fields: vec![] },
+            Var { name: "D", kind: VK::Unit, fields: vec![] },
+        ],
+        param: [false; 4],
+        bound_style: 0,
+    };
+    let enum_generic = Shape {
+        is_enum: true,
+        vars: vec![
+            Var { name: "A", kind: VK::Tuple, fields: vec![fld(None, 0)] },
+            Var { name: "B", kind: VK::Tuple, fields: vec![fld(None, 0), fld(None, 1)] },
+            Var { name: "C", kind: VK::Tuple, fields: vec![fld(None, 0), fld(None, 0)] },
+        ],
+        param: [true; 4],
+        bound_style: 0,
+    };
+    let enum_single = Shape { is_enum: true, vars: vec![Var { name: "A", kind: VK::Tuple, fields: vec![fld(None, 0), fld(None, 1)] }], param: [false; 4], bound_style: 0 };
+    let mut out = vec![];
+    let plan = |op: usize, mode: Mode, shape: &Shape, noncopy: bool, companion: u8| Plan { op, mode, shape: shape.clone(), scalar: 7, noncopy, sum_len: 2, companion, derive_style: 0 };
+    for (op, opd) in OPS.iter().enumerate() {
+        let structs = [&tuple2, &tuple2_same, &named3g];
+        let enums = [&enum_units, &enum_generic, &enum_single];
+        match opd.fam {
+            Fam::AddLike | Fam::NotLike => {
+                for s in structs.iter().chain(enums.iter()) {
+                    out.push(render_plan(&plan(op, Mode::Plain, s, false, 0)));
+                }
+            }
+            Fam::AddAssignLike => {
+                for s in structs {
+                    out.push(render_plan(&plan(op, Mode::Plain, s, false, 0)));
+                }
+                out.push(render_negative(op, false, &enum_units));
+            }
+            Fam::MulLike => {
+                for s in structs {
+                    out.push(render_plan(&plan(op, Mode::Scalar, s, false, 0)));
+                    out.push(render_plan(&plan(op, Mode::Forward, s, false, 0)));
+                }
+                out.push(render_plan(&plan(op, Mode::Scalar, &single, true, 0)));
+                out.push(render_plan(&plan(op, Mode::Forward, &enum_units, false, 0)));
+                out.push(render_negative(op, false, &enum_units));
+            }
+            Fam::MulAssignLike => {
+                for s in structs {
+                    out.push(render_plan(&plan(op, Mode::Scalar, s, false, 0)));
+                    out.push(render_plan(&plan(op, Mode::Forward, s, false, 0)));
+                }
+                out.push(render_plan(&plan(op, Mode::Scalar, &single, true, 0)));
+                out.push(render_negative(op, false, &enum_units));
+                out.push(render_negative(op, true, &enum_units));
+            }
+            Fam::SumLike => {
+                for s in structs {
+                    for comp in 0..3 {
+                        out.push(render_plan(&plan(op, Mode::Plain, s, false, comp)));
+                    }
+                }
+                out.push(render_negative(op, false, &enum_units));
+            }
+        }
+    }
+    out
+}
+
+/// Defect model of the recorded finding: `#[derive(Mul-like)] #[<op>(forward)] enum` is rejected by the legacy
+/// attribute parser with exactly "Attribute is not allowed here"; everything else rustc says about the case is
+/// the consequence (operator not implemented, E0369). Any other diagnostic, or a run-time difference once the
+/// form is accepted, is not covered.
+fn classify(c: &GenCase, r: &CaseResult, _f: &Finding) -> Option<String> {
+    if c.meta["forward_enum"].as_bool() != Some(true) || !c.expect_compile || r.compiled {
+        return None;
+    }
+    let hit = r.errors.iter().any(|e| e.code.is_none() && e.message == "Attribute is not allowed here");
+    let rest_ok = r
+        .errors
+        .iter()
+        .all(|e| (e.code.is_none() && e.message == "Attribute is not allowed here") || e.code.as_deref() == Some("E0369"));
+    if hit && rest_ok {
+        Some(SIG_FORWARD_ENUM.to_string())
+    } else {
+        None
+    }
+}
+
 pub fn prop() -> DiceProp {
+    let mut floors: Vec<(String, f64)> = OPS.iter().map(|o| (format!("derive={}", o.derive), 0.02)).collect();
+    floors.extend(
+        [
+            ("nontrivial", 0.5),
+            ("kind=enum", 0.12),
+            ("pair=mismatch_any", 0.07),
+            ("pair=unit", 0.04),
+            ("pair=same", 0.07),
+            ("unary_result_wrapped", 0.01),
+            ("forward", 0.05),
+            ("scalar", 0.08),
+            ("scalar_noncopy", 0.005),
+            ("generic", 0.25),
+            ("same_type_fields", 0.1),
+            ("mul_forward_enum", 0.01),
+            ("negative_unsupported_enum", 0.02),
+            ("companion=manual_own_name", 0.01),
+        ]
+        .iter()
+        .map(|(l, f)| (l.to_string(), *f)),
+    );
     DiceProp {
         crate_name: "gen_c10",
-        prelude: String::new(),
+        prelude: PRELUDE.to_string(),
         crate_attrs: String::new(),
         nightly: false,
         check_only: false,
-        ndice: 64,
-        quick: (10, 1),
-        thorough: (10, 1),
+        ndice: 128,
+        quick: (1500, 1),
+        thorough: (4500, 4),
         build,
-        fixed: no_fixed,
-        classify: no_classify,
-        rule: "stub".into(),
-        assumptions: vec![],
-        floors: vec![],
+        fixed,
+        classify,
+        rule: "one of the 24 operator derives on a tuple/named struct (1..4 fields) or an enum (1..4 tuple/named/unit variants, Add-like, Not-like and `forward` Mul-like only), concrete, generic or mixed field types, with/without `forward`; fields are free-term-algebra types, leaves tagged by side and field index; oracle: the result's Debug rendering equals that of the expected value built by hand from term constructors (field i = op(L i, R i) / op(L i, K) / un(L i); a op= b leaves a = that value; sum/product = left fold from the field-wise Zero/One with the type's Add/Mul; enums: every ordered pair of variants, Ok inside a variant, BinaryError::Mismatch / BinaryError::Unit / UnitError with the documented messages otherwise); unsupported enum forms must be rejected; non-trivial = struct with >= 2 fields or enum with >= 2 variants; distinct by program text".into(),
+        assumptions: vec![
+            "std #[derive(Debug)] renders the case types faithfully (structural equality is decided on the Debug rendering)".into(),
+            "for pairs of different variants where one or both are unit variants the listing in add.md (`_ => Mismatch`) decides: mismatch error".into(),
+        ],
+        floors,
         shards: 0,
     }
 }
